@@ -82,6 +82,34 @@ func c18Build(tab []c18Entry) (*PreConfigRoute, string) {
 	return pcr, ""
 }
 
+// c18BuildConfig creates the product table the way main does: the table is
+// written as the route section of a YAML configuration (consecutive entries
+// with the same protocol and next hop become one route item with several
+// dests), decoded by loadConfigFromReader and built by createPreConfigRoute.
+func c18BuildConfig(tab []c18Entry) (*PreConfigRoute, string) {
+	q := func(s string) string { return "'" + strings.ReplaceAll(s, "'", "''") + "'" }
+	var sb strings.Builder
+	sb.WriteString("proxies:\n- name: 'c18'\n  route:\n")
+	items := 0
+	for i := 0; i < len(tab); {
+		j := i
+		sb.WriteString("  - dests:\n")
+		for j < len(tab) && tab[j].Proto == tab[i].Proto && tab[j].NextHop == tab[i].NextHop {
+			sb.WriteString("    - " + q(tab[j].Pattern) + "\n")
+			j++
+		}
+		sb.WriteString("    protocol: " + q(tab[i].Proto) + "\n    nexthop: " + q(tab[i].NextHop) + "\n")
+		V.ClassIf(j-i >= 2, "table built from configuration with a multi-dest route item")
+		items++
+		i = j
+	}
+	cfg, err := loadConfigFromReader(strings.NewReader(sb.String()))
+	if err != nil || len(cfg.Proxies) != 1 || len(cfg.Proxies[0].Route) != items {
+		return nil, fmt.Sprintf("harness: generated configuration not decoded as written (%v):\n%s", err, sb.String())
+	}
+	return createPreConfigRoute(cfg.Proxies[0]), ""
+}
+
 // c18Check runs one (table, host) case on a fresh table; returns a failure text or "".
 func c18Check(c c18Case, reps int) (string, int, string) {
 	pcr, msg := c18Build(c.Table)
@@ -218,9 +246,9 @@ func c18Record(c c18Case, nw int, kind string) {
 }
 
 func TestC18(t *testing.T) {
-	V.Rule("unit: route tables (exhaustive: all ordered tables of <=3 entries and all/sampled 4-entry tables over 11 patterns x 11 hosts (names and IPv4 literals); random: 5-30 generated entries, hosts derived from patterns by substitution and near-miss edits) looked up 50x (3x when at most one wildcard matches) on a fresh table, and as interleaved lookup histories (all hosts forward/backward/forward; random other hosts in between) on one table object; non-trivial = >=2 wildcards match, or literal and wildcard both match, or a dotted look-alike; distinct by (table, host)")
+	V.Rule("unit: route tables (exhaustive: all ordered tables of <=3 entries and all/sampled 4-entry tables over 11 patterns x 11 hosts (names and IPv4 literals); random: 5-30 generated entries, hosts derived from patterns by substitution and near-miss edits) looked up 50x (3x when at most one wildcard matches) on a fresh table built entry by entry, and as interleaved lookup histories (all hosts forward/backward/forward; random other hosts in between) on one table object built the way main builds it (the table written as a YAML route section - consecutive entries with equal protocol and next hop as one item with several dests - and loaded through loadConfigFromReader / createPreConfigRoute); non-trivial = >=2 wildcards match, or literal and wildcard both match, or a dotted look-alike; distinct by (table, host)")
 	V.Assume("patterns and hosts use host-name characters and '*' only")
-	V.Require("interleaved lookups on one table", "rule:literal", "rule:wildcard", "rule:default", "rule:none", "ties:>=2 wildcards match", "literal and wildcard both match", "dotted look-alike")
+	V.Require("interleaved lookups on one table", "table built from configuration with a multi-dest route item", "rule:literal", "rule:wildcard", "rule:default", "rule:none", "ties:>=2 wildcards match", "literal and wildcard both match", "dotted look-alike")
 
 	t.Run("exhaustive", func(t *testing.T) {
 		protos := []string{"udp", "tcp", "tls", "TLS"}
@@ -235,6 +263,11 @@ func TestC18(t *testing.T) {
 					nh += ":" + strconv.Itoa([]int{5060, 6000 + i, 5061}[(i/2+k)%3])
 				}
 				tab[k] = c18Entry{Proto: protos[(i+k)%4], Pattern: c18Patterns[i], NextHop: nh}
+			}
+			// every third table: the second entry shares protocol and next hop with the
+			// first (one route item with two dests in a configuration file)
+			if sum := idx[0] + len(idx); len(idx) >= 2 && sum%3 == 0 {
+				tab[1].Proto, tab[1].NextHop = tab[0].Proto, tab[0].NextHop
 			}
 			for _, h := range c18Hosts {
 				c := c18Case{Table: tab, Host: h}
@@ -267,8 +300,11 @@ func TestC18(t *testing.T) {
 			}
 			// history part: one table object answers all hosts, interleaved, three rounds
 			// (an answer must not depend on what was looked up before)
-			pcr, bmsg := c18Build(tab)
-			if bmsg == "" && V.only == "" {
+			pcr, bmsg := c18BuildConfig(tab)
+			if bmsg != "" {
+				V.HarnessError(t, "%s", bmsg)
+			}
+			if V.only == "" {
 				firsts := make([]c18Answer, len(c18Hosts))
 				for round := 0; round < 3; round++ {
 					for hi := range c18Hosts {
@@ -378,7 +414,11 @@ func TestC18(t *testing.T) {
 					nh += ":" + strconv.Itoa(rapid.IntRange(1, 65535).Draw(rt, "port"))
 				}
 			}
-			tab = append(tab, c18Entry{Proto: rapid.SampledFrom([]string{"udp", "tcp", "tls", "TLS", "Tls"}).Draw(rt, "proto"), Pattern: p, NextHop: nh})
+			e := c18Entry{Proto: rapid.SampledFrom([]string{"udp", "tcp", "tls", "TLS", "Tls"}).Draw(rt, "proto"), Pattern: p, NextHop: nh}
+			if len(tab) > 0 && rapid.IntRange(0, 3).Draw(rt, "same route item as the entry before") == 0 {
+				e.Proto, e.NextHop = tab[len(tab)-1].Proto, tab[len(tab)-1].NextHop
+			}
+			tab = append(tab, e)
 		}
 		// host: derived from a pattern of the table, or fresh
 		var host string
@@ -409,7 +449,9 @@ func TestC18(t *testing.T) {
 		msg, nw, kind := c18Check(c, 50)
 		if msg == "" {
 			// history: other hosts first (hits and misses), then the same host again on the same object
-			if pcr, bm := c18Build(tab); bm == "" {
+			if pcr, bm := c18BuildConfig(tab); bm != "" {
+				V.HarnessError(rt, "%s", bm)
+			} else {
 				var f0 c18Answer
 				c18CheckOn(pcr, c, 1, &f0)
 				nother := rapid.IntRange(1, 4).Draw(rt, "others")
